@@ -914,4 +914,121 @@ theorem reconnect_conn (P : SProto Q) (s : Sys Q) (es : List SEv) :
     exact ⟨this.1, this.2.1⟩
   · split <;> simp [Fresh, accept, refuse, closeConn, PConn.fresh]
 
+/-- no reconnect happened: the same connection is held, no connection was opened -/
+def Same (s s1 : Sys Q) : Prop := s1.conn.idx = s.conn.idx ∧ s1.nconn = s.nconn
+
+/-- a reconnect happened: the transport holds the newest connection, opened after `s`, nothing received on it yet -/
+def Renewed (P : SProto Q) (s s1 : Sys Q) : Prop :=
+  s1.conn.idx + 1 = s1.nconn ∧ s.nconn < s1.nconn ∧ s1.conn.q = P.parse [] ∧ s1.conn.rem = []
+
+theorem afterLoss_conn (P : SProto Q) (lim : Limits) (retry : Bool) (i : Nat) (s : Sys Q) (es : List SEv) :
+    (∀ s1 es1 l, afterLoss P lim retry i s es = .next s1 es1 l →
+      l = .missing true ∧ ((retry = true ∧ Renewed P s s1) ∨ (retry = false ∧ Same s s1))) ∧
+    (∀ o s1 es1, afterLoss P lim retry i s es = .fin o s1 es1 → s1.conn.idx = s.conn.idx ∧ ∀ d, o ≠ .reply d) := by
+  cases retry
+  · simp only [afterLoss, Bool.false_eq_true, if_false]
+    refine ⟨?_, ?_⟩
+    · intro s1 es1 l h; cases h; exact ⟨by trivial, .inr ⟨by trivial, rfl, rfl⟩⟩
+    · intro o s1 es1 h; cases h
+  · simp only [afterLoss, if_true]
+    have hs := sleep_idx P (waitMs lim i) s es
+    generalize sleep P (waitMs lim i) s es = r1 at hs ⊢
+    have hc := reconnect_conn P r1.1 r1.2
+    generalize reconnect P r1.1 r1.2 = r2 at hc ⊢
+    obtain ⟨rc, s2, es2⟩ := r2
+    simp only at hc
+    cases rc <;> simp only
+    · refine ⟨?_, ?_⟩
+      · intro s1 es1 l h; cases h
+        obtain ⟨f1, f2, f3, f4⟩ := hc.1 rfl
+        exact ⟨by trivial, .inl ⟨by trivial, f1, by omega, f3, f4⟩⟩
+      · intro o s1 es1 h; cases h
+    all_goals
+      refine ⟨?_, ?_⟩
+      · intro s1 es1 l h; cases h
+      · intro o s1 es1 h; cases h
+        exact ⟨by rw [hc.2 (by simp), hs.1], by intro d hd; cases hd⟩
+
+/-- how one attempt leaves the connection, and where a reply it returns comes from -/
+theorem attemptStep_conn (P : SProto Q) (hP : Laws P.toProto) (cls : Bytes → Ev) (lim : Limits) (req : Bytes) (tmo : Option Nat)
+    (retry : Bool) (i : Nat) (s : Sys Q) (es : List SEv) (last : Out) :
+    (∀ d s1 es1, attemptStep P cls lim req tmo retry i s es last = .fin (.reply d) s1 es1 →
+      Same s s1 ∧ FromConn P s.conn.idx d) ∧
+    (∀ s1 es1 l, attemptStep P cls lim req tmo retry i s es last = .next s1 es1 l →
+      Same s s1 ∨ (l = .missing true ∧ retry = true ∧ Renewed P s s1)) ∧
+    (∀ s1 es1, attemptStep P cls lim req tmo retry i s es last = .next s1 es1 (.missing false) → Same s s1) := by
+  have hi := opRequest_idx P s es req tmo
+  have hd := opRequest_data P hP s es req tmo
+  unfold attemptStep
+  generalize opRequest P s es req tmo = r at hi hd
+  obtain ⟨res, s1, es1⟩ := r
+  simp only at hi hd
+  have hb := backoff_idx P lim retry i
+  have ha := afterLoss_conn P lim retry i
+  have hsame : ∀ s2 : Sys Q, Same s1 s2 → Same s s2 := fun s2 h => ⟨by rw [h.1, hi.1], by rw [h.2, hi.2]⟩
+  have hren : ∀ s2 : Sys Q, Renewed P s1 s2 → Renewed P s s2 := fun s2 h => ⟨h.1, by rw [← hi.2]; exact h.2.1, h.2.2⟩
+  have hal : ∀ (s2 : Sys Q) (es2 : List SEv), Same s s2 →
+      (∀ d s3 es3, afterLoss P lim retry i s2 es2 = .fin (.reply d) s3 es3 → Same s s3 ∧ FromConn P s.conn.idx d) ∧
+      (∀ s3 es3 l, afterLoss P lim retry i s2 es2 = .next s3 es3 l →
+        Same s s3 ∨ (l = .missing true ∧ retry = true ∧ Renewed P s s3)) ∧
+      (∀ s3 es3, afterLoss P lim retry i s2 es2 = .next s3 es3 (.missing false) → Same s s3) := by
+    intro s2 es2 h2
+    obtain ⟨a1, a2⟩ := ha s2 es2
+    refine ⟨?_, ?_, ?_⟩
+    · intro d s3 es3 h; exact absurd rfl ((a2 _ _ _ h).2 d)
+    · intro s3 es3 l h
+      obtain ⟨l1, l2 | l2⟩ := a1 _ _ _ h
+      · exact .inr ⟨l1, l2.1, l2.2.1, by rw [← h2.2]; exact l2.2.2.1, l2.2.2.2⟩
+      · exact .inl ⟨by rw [l2.2.1, h2.1], by rw [l2.2.2, h2.2]⟩
+    · intro s3 es3 h
+      have := (a1 _ _ _ h).1
+      cases this
+  split
+  all_goals first
+    | (rename_i heq; cases heq
+       exact hal s1 es1 ⟨hi.1, hi.2⟩)
+    | (rename_i heq; cases heq
+       have hb := hb s1 es1
+       refine ⟨(by intro d s2 es2 h; cases h), ?_, ?_⟩
+       · intro s2 es2 l h; cases h; exact .inl (hsame _ ⟨hb.1, hb.2⟩)
+       · intro s2 es2 h; cases h; exact hsame _ ⟨hb.1, hb.2⟩)
+    | (rename_i heq; cases heq
+       refine ⟨(by intro d s2 es2 h; cases h), (by intro s2 es2 l h; cases h), (by intro s2 es2 h; cases h)⟩)
+    | (rename_i heq; cases heq
+       have hdd : FromConn P s.conn.idx _ := hd _ rfl
+       have hb := hb s1 es1
+       have hp := pendLoop_conn P hP cls lim (maxNT lim tmo) s1 es1 1 0
+       have hfin : ∀ d0, (∀ d s2 es2, Step.fin (Out.reply d0) s1 es1 = .fin (.reply d) s2 es2 → Same s s2 ∧ FromConn P s.conn.idx d) ∧
+           (∀ s2 es2 l, Step.fin (Out.reply d0) s1 es1 = .next s2 es2 l → Same s s2 ∨ (l = .missing true ∧ retry = true ∧ Renewed P s s2)) ∧
+           (∀ s2 es2, Step.fin (Out.reply d0) s1 es1 = .next s2 es2 (.missing false) → Same s s2) → True := fun _ _ => trivial
+       split
+       · split
+         · refine ⟨(by intro d s2 es2 h; cases h), ?_, ?_⟩
+           · intro s2 es2 l h; cases h; exact .inl (hsame _ ⟨hb.1, hb.2⟩)
+           · intro s2 es2 h; cases h; exact hsame _ ⟨hb.1, hb.2⟩
+         · refine ⟨?_, (by intro s2 es2 l h; cases h), (by intro s2 es2 h; cases h)⟩
+           intro d s2 es2 h; cases h; exact ⟨⟨hi.1, hi.2⟩, hdd⟩
+       · exact ⟨(by intro d s2 es2 h; cases h), (by intro s2 es2 l h; cases h), (by intro s2 es2 h; cases h)⟩
+       · exact ⟨(by intro d s2 es2 h; cases h), (by intro s2 es2 l h; cases h), (by intro s2 es2 h; cases h)⟩
+       · obtain ⟨p1, p2, p3⟩ := hp
+         split
+         · rename_i o s2 es2 hpe
+           rw [hpe] at p1 p2 p3
+           simp only [PRes2.sys] at p1 p2
+           refine ⟨?_, (by intro s3 es3 l h; cases h), (by intro s3 es3 h; cases h)⟩
+           intro d s3 es3 h; cases h
+           exact ⟨hsame _ ⟨p1, p2⟩, by rw [← hi.1]; exact p3 _ _ _ rfl⟩
+         · rename_i s2 es2 hpe
+           rw [hpe] at p1 p2
+           simp only [PRes2.sys] at p1 p2
+           refine ⟨(by intro d s3 es3 h; cases h), ?_, ?_⟩
+           · intro s3 es3 l h; cases h; exact .inl (hsame _ ⟨p1, p2⟩)
+           · intro s3 es3 h; cases h; exact hsame _ ⟨p1, p2⟩
+         · rename_i s2 es2 hpe
+           rw [hpe] at p1 p2
+           simp only [PRes2.sys] at p1 p2
+           exact hal s2 es2 (hsame _ ⟨p1, p2⟩)
+       · refine ⟨?_, (by intro s2 es2 l h; cases h), (by intro s2 es2 h; cases h)⟩
+         intro d s2 es2 h; cases h; exact ⟨⟨hi.1, hi.2⟩, hdd⟩)
+
 end Gallia.LossSys
